@@ -164,9 +164,10 @@ class Unnest(object):
         except z3.Z3Exception:
             raise z3.Z3Exception('unnest: operation %s over a sequence of sequences is not handled' % nm)
 
+_shared = Unnest()
 def unnest(fs):
-    u = Unnest()
-    return [u.tr(f) for f in fs]
+    # one translator per process: path conditions are translated again and again as they grow, and share almost all their formulas
+    return [_shared.tr(f) for f in fs]
 
 def has_nested(fs):
     """does any term of the formulas have a sequence-of-sequences sort (after translation this must be False)"""
